@@ -156,6 +156,13 @@ def run_case(case, ctx):
     ctx.check([(t, -y, mp) for t, y, mp in _entries(g)] == _entries(f), "order_swap_negates",
               lambda: "f(A,B).y=%r f(B,A).y=%r" % (list(f.y), list(g.y)))
 
+    # 1b. un-normalised order value = sum of the profile values = 2 * sum of D_A
+    dA0, _ = O.directionality(A, B, T0, T1, m, mt)
+    ou = ctx.call("order_unnormalized", pyspike.spike_train_order, sts[a], sts[b],
+                  normalize=False, **kw)
+    ctx.check(float(ou) == 2 * sum(dA0), "order_unnormalized",
+              lambda: "spike_train_order(normalize=False)=%r expected %r" % (ou, 2 * sum(dA0)))
+
     # 2. bivariate directionality, both normalisations, swap
     dA, dB = O.directionality(A, B, T0, T1, m, mt)
     d_un = ctx.call("directionality_unnorm", pyspike.spike_directionality,
